@@ -456,6 +456,8 @@ var docFit = map[string][]int{
 	"r_rec": {4}, "r_self": {4}, "r_or": {12, 0}, "r_allof": {8}, "r_allof2": {8}, "r_uset": {9, 8}, "r_uset2": {9, 8}, "r_keys": {0, 10},
 	"r_twokeys": {0, 10, 1}, "r_addl": {10, 0}, "r_req": {11, 0}, "t_node": {4}, "t_allof": {8}, "t_or": {12},
 	"r_idflag": {18, 19, 20, 21}, "r_ownor": {22, 23},
+	"r_enum3": {25, 0}, "r_enum3s": {26, 3}, "r_tenum3": {25, 0}, "r_allofpq": {27, 28, 11}, "r_allofpq2": {27, 28, 11}, "r_extpq": {29, 30},
+	"r_usep": {31, 32}, "r_proot": {28, 27, 11}, "r_useq": {33, 11}, "t_p": {28, 27, 11}, "t_q": {27, 11}, "t_ext": {27, 28, 11},
 }
 
 type gen struct {
@@ -510,14 +512,14 @@ func (g *gen) plan(i int) {
 	spec := Schemas[g.h.Objs[i].Spec]
 	var q []Op
 	for _, rr := range spec.Rules {
-		q = append(q, Op{Code: OpAddRule, Obj: i, Arg: g.instance(KEnum, rr.Enum, 0.5), Name: rr.Name})
+		q = append(q, Op{Code: OpAddRule, Obj: i, Arg: g.instance(KEnum, rr.Enum, 0.7), Name: rr.Name})
 	}
 	for _, tr := range spec.Types {
 		switch tr.Kind {
 		case KSelf:
 			q = append(q, Op{Code: OpAddType, Obj: i, Arg: i, Name: tr.Name})
 		default:
-			q = append(q, Op{Code: OpAddType, Obj: i, Arg: g.instance(tr.Kind, tr.Spec, 0.6), Name: tr.Name})
+			q = append(q, Op{Code: OpAddType, Obj: i, Arg: g.instance(tr.Kind, tr.Spec, 0.7), Name: tr.Name})
 		}
 	}
 	if len(q) > 1 && g.r.Intn(8) == 0 {
@@ -704,20 +706,37 @@ func Generate(r *rand.Rand, withKnown bool) *History {
 	var rootObjs []int
 	for len(rootObjs) < nRoots {
 		spec := roots[r.Intn(len(roots))]
+		if len(Schemas[spec].Types)+len(Schemas[spec].Rules) == 0 && r.Intn(2) == 0 {
+			spec = roots[r.Intn(len(roots))] // roots with types / rules are the interesting ones: second draw
+		}
 		if len(rootObjs) > 0 {
 			switch x := r.Intn(10); {
-			case x < 4: // same text again
+			case x < 3: // same text again
 				spec = g.h.Objs[rootObjs[r.Intn(len(rootObjs))]].Spec
-			case x < 7: // a root that uses one of the same type specs
+			case x < 8: // a root that uses one of the same type / rule specs (its objects can then be shared)
 				prev := Schemas[g.h.Objs[rootObjs[r.Intn(len(rootObjs))]].Spec]
 				var cands []int
 				for _, ri := range roots {
+					if Schemas[ri].ID == prev.ID {
+						continue
+					}
+					shares := false
 					for _, a := range Schemas[ri].Types {
 						for _, b := range prev.Types {
 							if a.Kind == b.Kind && a.Spec == b.Spec && a.Kind != KSelf {
-								cands = append(cands, ri)
+								shares = true
 							}
 						}
+					}
+					for _, a := range Schemas[ri].Rules {
+						for _, b := range prev.Rules {
+							if a.Enum == b.Enum {
+								shares = true
+							}
+						}
+					}
+					if shares {
+						cands = append(cands, ri)
 					}
 				}
 				if len(cands) > 0 {
